@@ -3,7 +3,7 @@
    obligation: a source edit that changes a skeleton breaks the obligation and every theorem below. *)
 From Coq Require Import List Arith NArith ZArith Lia Bool.
 From GoMC Require Import Model.C20_syntax Gen.Queue Model.C20 Proofs.C20 Proofs.C20_fifo Proofs.C20_ll Proofs.C20_ch
-  Proofs.C20_plist Proofs.C20_pool Proofs.C20_term Proofs.C20_ch_term Proofs.C20_cache.
+  Proofs.C20_plist Proofs.C20_pool Proofs.C20_term Proofs.C20_ch_term Proofs.C20_cache Proofs.C20_order Proofs.C20_locks.
 Import ListNotations.
 
 Definition reachable (P : progs) (capacity : nat) (scripts : list (list op)) (s : state) : Prop :=
@@ -141,3 +141,21 @@ Proof.
   induction sched as [|[i k] r IH]; intros p R; cbn; auto.
   destruct (pool_step i k p) as [p'|] eqn:E; auto. apply IH. eapply preach_step; eauto. exists i, k. exact E.
 Qed.
+
+(* ---- program order: Push x1 .. Push xn; Close in one thread, consumers only Pull *)
+Lemma top_ll_push_then_close n items consumers s : Forall (Forall (eq OPull)) consumers ->
+  reachable ll_progs n (ptc_scripts items consumers) s ->
+  (exists r, pushed s ++ r = items) /\
+  (closed s = true -> pushed s = items) /\
+  (forall j t, nth_error (thr s) (S j) = Some t ->
+     out t = map some_res (gots_of t) ++ repeat clo (nclos t) /\
+     subseq (gots_of t) items /\
+     (nclos t > 0 -> delivered s = items /\ q s = [] /\ closed s = true)).
+Proof.
+  unfold reachable. rewrite ll_progs_ok. intros Hc R. split; [eapply ptc_pushed_prefix; eauto|].
+  split; [eapply ptc_closed_after_pushes; eauto|]. intros j t. eapply ptc_consumer; eauto.
+Qed.
+Lemma top_ll_push_then_close_single n items m s t :
+  reachable ll_progs n (ptc_scripts items [repeat OPull m]) s -> nth_error (thr s) 1 = Some t ->
+  exists a b, out t = map some_res (firstn a items) ++ repeat clo b /\ a <= length items /\ (b > 0 -> a = length items).
+Proof. unfold reachable. rewrite ll_progs_ok. apply ptc_single_consumer. Qed.
